@@ -61,9 +61,9 @@ struct LeafShape {
     geo: Geo,
 }
 
-fn rand_leaf_shape(rng: &mut Rng, layers: &[i16]) -> (GdsElement, LeafShape) {
+fn rand_leaf_shape(rng: &mut Rng, layers: &[i16], dtypes: &[i16]) -> (GdsElement, LeafShape) {
     let layer = *rng.pick(layers);
-    let dtype = rng.range(0, 2) as i16;
+    let dtype = *rng.pick(dtypes);
     let o = (rng.range(-2000, 2000), rng.range(-2000, 2000));
     match rng.below(10) {
         9 => {
@@ -198,7 +198,15 @@ struct GenLib {
 
 fn gen_valid(rng: &mut Rng, big_arrays: bool) -> GenLib {
     let nstructs = 1 + rng.usize(5);
-    let layers: Vec<i16> = (0..1 + rng.usize(3)).map(|_| rng.range(0, 60) as i16).collect();
+    // layer and datatype numbers are 16-bit signed: one library in four takes them from the whole range (negative ones, the two ends,
+    // 255/256), few enough of them that consecutive elements share a datatype on different layers and a layer under different datatypes
+    let wide = rng.chance(1, 4);
+    let layers: Vec<i16> = if wide {
+        (0..2 + rng.usize(2)).map(|_| *rng.pick(&[-1i16, -2, i16::MIN, i16::MAX, 255, 256, 1, 2, -32767, 0x7F00])).collect()
+    } else {
+        (0..1 + rng.usize(3)).map(|_| rng.range(0, 60) as i16).collect()
+    };
+    let dtypes: Vec<i16> = if wide { (0..1 + rng.usize(2)).map(|_| *rng.pick(&[-1i16, i16::MIN, i16::MAX, -2, 256, 0])).collect() } else { vec![0, 1, 2] };
     let mut structs: Vec<GdsStruct> = Vec::new();
     let mut own = BTreeMap::new();
     // structure names: plain indices, or families that real libraries have - names differing only in letter case, and long names that share
@@ -217,7 +225,7 @@ fn gen_valid(rng: &mut Rng, big_arrays: bool) -> GenLib {
         let mut shapes = Vec::new();
         let mut texts = Vec::new();
         for _ in 0..rng.usize(5) + if i == 0 { 1 } else { 0 } {
-            let (e, l) = rand_leaf_shape(rng, &layers);
+            let (e, l) = rand_leaf_shape(rng, &layers, &dtypes);
             s.elems.push(e);
             shapes.push(l);
         }
@@ -342,7 +350,58 @@ impl C06 {
     fn check_valid(&self, cx: &mut Cx, g: &GenLib) {
         cx.eval();
         let describe = || json!({"gds": format!("{:?}", g.lib.structs).chars().take(3000).collect::<String>()});
-        let rlib = match guard(|| raw::Library::from_gds(&g.lib, None)) {
+        // one import in four goes into a layer set the caller supplies, in which some of the library's (layer, datatype) pairs already have
+        // a purpose: an enumerated one, or a NAMED one (the only purpose that owns heap memory)
+        let supplied: Option<raw::utils::Ptr<raw::Layers>> = if cx.rng.chance(1, 4) {
+            let mut pairs: Vec<(i16, i16)> = Vec::new();
+            for s in &g.lib.structs {
+                for e in &s.elems {
+                    let p = match e {
+                        GdsElement::GdsBoundary(x) => (x.layer, x.datatype),
+                        GdsElement::GdsPath(x) => (x.layer, x.datatype),
+                        GdsElement::GdsBox(x) => (x.layer, x.boxtype),
+                        GdsElement::GdsTextElem(x) => (x.layer, x.texttype),
+                        _ => continue,
+                    };
+                    if !pairs.contains(&p) {
+                        pairs.push(p);
+                    }
+                }
+            }
+            let mut ls = raw::Layers::default();
+            let mut nums: Vec<i16> = pairs.iter().map(|p| p.0).collect();
+            nums.sort();
+            nums.dedup();
+            for num in nums {
+                if cx.rng.chance(1, 4) {
+                    continue; // left for the importer to create
+                }
+                let mut layer = raw::Layer::new(num, format!("supplied_{}", num));
+                let mut used = [false; 5];
+                for (_, dt) in pairs.iter().filter(|p| p.0 == num) {
+                    let purpose = match cx.rng.below(8) {
+                        0 => continue,
+                        1..=3 => raw::LayerPurpose::Named(format!("purpose_number_{}_of_layer_{}", dt, num), *dt),
+                        4 => raw::LayerPurpose::Other(*dt),
+                        k => {
+                            let i = (k - 5) as usize + if cx.rng.bool() { 2 } else { 0 };
+                            if used[i] {
+                                continue;
+                            }
+                            used[i] = true;
+                            [raw::LayerPurpose::Drawing, raw::LayerPurpose::Pin, raw::LayerPurpose::Label, raw::LayerPurpose::Obstruction, raw::LayerPurpose::Outline][i].clone()
+                        }
+                    };
+                    let _ = layer.add_purpose(*dt, purpose);
+                }
+                ls.add(layer);
+            }
+            cx.count("imports_into_a_supplied_layer_set");
+            Some(raw::utils::Ptr::new(ls))
+        } else {
+            None
+        };
+        let rlib = match guard(|| raw::Library::from_gds(&g.lib, supplied.clone())) {
             Err(c) => {
                 cx.violation(&format!("valid|panic|{}|{}", c.site(), c.norm_msg()), json!({"panic": c.msg, "at": format!("{}:{}", c.file, c.line), "gds": describe()}));
                 return;
@@ -358,6 +417,21 @@ impl C06 {
             Ok(Ok(l)) => l,
         };
         cx.count("valid_import_ok");
+        // flattening reads the library: what the cells themselves hold (elements with their purposes, instances, annotations) must be the
+        // same after all the flattening below as it is now
+        let own_image = |l: &raw::Library| -> String {
+            l.cells
+                .iter()
+                .map(|c| {
+                    let c = c.read().unwrap();
+                    match &c.layout {
+                        Some(lay) => format!("{}: {:?} {:?} {}\n", c.name, lay.elems, lay.annotations, lay.insts.len()),
+                        None => format!("{}: -\n", c.name),
+                    }
+                })
+                .collect()
+        };
+        let image_before = own_image(&rlib);
         if let Some((c, t)) = super::c07::foreign_target(&rlib) {
             cx.violation("valid|instance-target-is-not-a-cell-of-the-library", json!({"cell": c, "target": t}));
             return;
@@ -491,6 +565,21 @@ impl C06 {
                 }
                 cx.count("annotations_agree");
             }
+        }
+        // (flatten every cell once more and drop the result: a flattened element that shares heap memory with the library's own shows here)
+        for c in rlib.cells.iter() {
+            let c = c.read().unwrap();
+            if let Some(lay) = &c.layout {
+                let _ = guard(|| lay.flatten().map(|v| v.len()));
+            }
+        }
+        let image_after = own_image(&rlib);
+        if image_after != image_before {
+            let k = image_before.bytes().zip(image_after.bytes()).take_while(|(a, b)| a == b).count();
+            let lo = (0..=k.saturating_sub(80)).rev().find(|j| image_before.is_char_boundary(*j)).unwrap_or(0);
+            let cut = |t: &str| -> String { t.get(lo..).unwrap_or("").chars().take(200).collect() };
+            cx.violation("valid|flattening-changed-the-library", json!({"before": cut(&image_before), "after": String::from_utf8_lossy(&image_after.as_bytes()[lo.min(image_after.len())..]).chars().take(200).collect::<String>(), "gds": describe()}));
+            return;
         }
         cx.count("libraries_agree");
     }
